@@ -36,12 +36,12 @@
 #define MBUFF_POST(o)      MBUFF_POST_CAP(o, VCAP)
 
 /* frame of a mutator: the three fields and the bytes of the buffer it owned on entry */
-#define MBUFF_FRAME(o)     (o)->buff, (o)->len, (o)->size, __CPROVER_object_whole((o)->buff)
+#define MBUFF_FRAME(o)     (o)->buff, (o)->len, (o)->size; (o)->buff != NULL: __CPROVER_object_whole((o)->buff)
 /* frame of a constructor on raw storage */
 #define MBUFF_FRAME_INIT(o) (o)->parent.cls, (o)->buff, (o)->len, (o)->size
 
 /* clamped index for old(): k if k < n, else 0 */
-#define VCLAMP(k, n)       (((spif_memidx_t) (k) >= 0 && (spif_memidx_t) (k) < (spif_memidx_t) (n)) ? (k) : 0)
+#define VCLAMP(k, n)       ((size_t) (k) < (size_t) (n) ? (size_t) (k) : (size_t) 0)
 #ifndef VMIN
 # define VMIN(a, b)        ((a) < (b) ? (a) : (b))
 #endif
